@@ -8,10 +8,10 @@ VAL_BOUND = 40
 EXACT_BOUND = 1 << 50
 
 
-def build(W=4, pausable=False, packets=None, extra_defs=()):
+def build(W=4, pausable=False, packets=None, extra_defs=(), stack_len=64):
     """packets=None: scalar packets (ADEPT_*_PACKET_SIZE=1) so that ADEPT_MULTIPASS_SIZE=W decides the block width;
     packets='sse2'|'avx'|'avx512': real packets, W is then the packet size"""
-    defs = ["ADEPT_INITIAL_STACK_LENGTH=64"] + list(extra_defs)
+    defs = ["ADEPT_INITIAL_STACK_LENGTH=%d" % stack_len] + list(extra_defs)
     extra = ["-std=c++17"]
     if packets is None:
         defs += ["ADEPT_MULTIPASS_SIZE=%d" % W, "ADEPT_DOUBLE_PACKET_SIZE=1", "ADEPT_FLOAT_PACKET_SIZE=1"]
